@@ -4,9 +4,10 @@
      2  model: program equivalent to the single run, implementation differs
      3  model: program NOT equivalent (harmful restart), implementation agrees
      4  numeric: iterate of the implementation differs from the model's
-     5  numeric: cost history differs       6  alias map differs *)
+     5  numeric: cost history differs       6  alias map differs
+     7  complex case malformed (lengths) *)
 From Coq Require Import QArith Qcanon ZArith List Arith Bool.
-From PV Require Import Dict Vec Dot Mat QcInst Check Drivers DriversInst.
+From PV Require Import Dict Vec Dot Mat QcInst GaussQc GaussField Check CG CGLS Drivers DriversInst DriversGauss.
 From PV Require Heap.
 Import ListNotations.
 
@@ -75,6 +76,45 @@ Definition acheck (c : acase) : list nat :=
   let h := Heap.exec p (Heap.caller_heap Heap.caller_env 3%nat) in
   let pred := map (fun v => (is_loc (Heap.henv h v) 0%nat, is_loc (Heap.henv h v) 1%nat)) vars in
   if eqbb pred (a_obs c) then [] else [6%nat].
+
+(* ---- complex (Gaussian-rational) cases: the CG.v / CGLS.v step functions
+   driven by the same program as the implementation; the iterate and the
+   counter after EVERY call, the final cost history (squared) and, for CGLS,
+   istop are compared.  g_kind: 0 = CG, 1 = CGLS. *)
+Record gcase := { g_id : nat; g_kind : nat; g_A : list (list G); g_n : nat; g_y : list G; g_x0 : option (list G);
+                  g_damp : Qc; g_tol : Qc; g_prog : list cmd;
+                  g_xs : list (list G); g_iiters : list nat; g_cost : list Qc; g_istop : nat }.
+Definition tolg : Qc := Q2Qc (1 # 100000000).
+Fixpoint all2g (a b : list (list G)) : bool :=
+  match a, b with [], [] => true | u :: a', v :: b' => gvclose tolg u v && all2g a' b' | _, _ => false end.
+Section Trace.
+  Variables (St : Type) (S0 : solver St Datatypes.unit).
+  Fixpoint gtrace (prog : list cmd) (st : St) : list St :=
+    match prog with [] => [] | c :: r => let st' := exec1 S0 c st in st' :: gtrace r st' end.
+End Trace.
+Definition wfg (c : gcase) : bool :=
+  forallb (fun r => Nat.eqb (length r) (g_n c)) (g_A c) && Nat.eqb (length (g_y c)) (length (g_A c)) &&
+  match g_x0 c with None => true | Some v => Nat.eqb (length v) (g_n c) end.
+Definition gcheck (c : gcase) : list nat :=
+  if negb (wfg c) then [7%nat] else
+  match g_kind c with
+  | 0%nat =>
+      let S0 := cgG (g_A c) (g_tol c) in
+      let sts := gtrace _ S0 (g_prog c) (cgG_setup (g_A c) (g_n c) (g_y c) (g_x0 c)) in
+      let fin := last sts (cgG_setup (g_A c) (g_n c) (g_y c) (g_x0 c)) in
+      (if eqnl (map (cg_iiter GF) sts) (g_iiters c) then [] else [1%nat]) ++
+      (if all2g (g_xs c) (map (cg_x GF) sts) then [] else [4%nat]) ++
+      (if vclose tolg (sqcost (g_cost c)) (map fst (cg_cost2 GF fin)) then [] else [5%nat])
+  | _ =>
+      let S0 := cglsG (g_n c) (g_A c) (g_tol c) in
+      let st0 := cglsG_setup (g_n c) (g_A c) (g_y c) (g_x0 c) (g_damp c) in
+      let sts := gtrace _ S0 (g_prog c) st0 in
+      let fin := last sts st0 in
+      (if eqnl (map (cl_iiter GF) sts) (g_iiters c) then [] else [1%nat]) ++
+      (if all2g (g_xs c) (map (cl_x GF) sts) then [] else [4%nat]) ++
+      (if vclose tolg (sqcost (g_cost c)) (map fst (cl_cost2 GF fin)) then [] else [5%nat]) ++
+      (if Nat.eqb (g_istop c) (cgls_istop GF gtGd fin (ofQc (g_tol c))) then [] else [5%nat])
+  end.
 
 Definition run_cases {C} (idf : C -> nat) (chk : C -> list nat) (cs : list C) : list (nat * list nat) :=
   failing idf chk cs.
